@@ -53,6 +53,7 @@ func verifHarness_Deep() {
 		}
 	}
 	verifWant = want
+	verifWantNdjson = 0
 	pj := &internalParsedJson{}
 	pj.copyStrings = true
 	err := pj.parseMessage(msg, false)
